@@ -40,8 +40,8 @@ class C12(Property):
         "results compared with relative tolerance 1e-9 (float arithmetic in the adapters)",
         "offset units (degC) are not integrated",
     )
-    cases = {"quick": 2000, "thorough": 150000}
-    min_nontrivial = {"quick": 800, "thorough": 40000}
+    cases = {"quick": 4000, "thorough": 150000}
+    min_nontrivial = {"quick": 1600, "thorough": 40000}
 
     def gen(self, rnd, i, tier):
         kind = rnd.choice(["avg", "sum", "sum"])
